@@ -273,8 +273,8 @@ def replay_trace(rep):
     return [r[1] for r in rejs]
 
 
-def pick_scenarios(family, tier, seed, pred, count, prop="x"):
-    """Behaviours of MC_Api[family] satisfying pred, a seeded sample of `count`."""
+def pick_scenarios(family, tier, seed, pred, count, prop="x", must=None, must_count=2):
+    """Behaviours of MC_Api[family] satisfying pred, a seeded sample of `count` (of which up to `must_count` satisfy `must`)."""
     wd = vlib.workdir(f"{prop}_pick_{family}")
     r = vlib.run_tlc("MC_Api", api_cfg(family, tier), wd, workers=8, timeout=3000)
     if not r["ok"]:
@@ -283,7 +283,12 @@ def pick_scenarios(family, tier, seed, pred, count, prop="x"):
     scen.sort(key=lambda s: json.dumps(s, sort_keys=True))
     rng = random.Random(seed * 7919 + 13)
     if len(scen) > count:
-        scen = rng.sample(scen, count)
+        forced = []
+        if must:
+            cand = [s for s in scen if must(s)]
+            forced = rng.sample(cand, min(len(cand), must_count))
+        rest = [s for s in scen if s not in forced]
+        scen = forced + rng.sample(rest, max(0, count - len(forced)))
     return scen, r
 
 
